@@ -6,6 +6,8 @@ package alncheck
 import (
 	"encoding/json"
 	"fmt"
+	"github.com/biogo/biogo/seq"
+	"github.com/biogo/biogo/seq/alignment"
 	"strings"
 	"sync"
 	"sync/atomic"
@@ -326,10 +328,13 @@ func evaluate(k Case) (out []finding) {
 	}()
 	al := mkAligner(k)
 	reject(k, false)
-	refSeq := seqOf(k.Letters, k.R, false)
-	qrySeq := seqOf(k.Letters, k.Q, false)
+	var refSeq, qrySeq align.AlphabetSlicer = seqOf(k.Letters, k.R, false), seqOf(k.Letters, k.Q, false)
 	if k.R == k.Q {
 		qrySeq = refSeq // a sequence aligned against itself: one object in both roles
+	} else if (len(k.R)+len(k.Q))%2 == 1 && len(k.M) > 0 && k.M[0][0] == 0 {
+		// a caller's own AlphabetSlicer that hands out the reads of a batch one after the other: what an
+		// aligner is asked to align is what the sequence gives when the aligner asks for it (once)
+		refSeq = &batch{alpha: refSeq.Alphabet(), reads: []alphabet.Letters{alphabet.BytesToLetters([]byte(k.R)), alphabet.BytesToLetters([]byte(k.Q + k.R))}}
 	}
 	ps, err := al.Align(refSeq, qrySeq)
 	if err != nil {
@@ -526,6 +531,20 @@ func evaluate(k Case) (out []finding) {
 	return
 }
 
+// batch is an AlphabetSlicer of the harness's own: a cursor over a batch of reads, Slice gives the next one.
+type batch struct {
+	alpha alphabet.Alphabet
+	reads []alphabet.Letters
+	next  int
+}
+
+func (b *batch) Alphabet() alphabet.Alphabet { return b.alpha }
+func (b *batch) Slice() alphabet.Slice {
+	r := b.reads[b.next%len(b.reads)]
+	b.next++
+	return r
+}
+
 func clipS(s string) string {
 	if len(s) > 80 {
 		return s[:80] + "..."
@@ -554,6 +573,23 @@ func illTyped(k Case) (out []finding) {
 	case "other-alphabet":
 		a2, _ := alphabet.NewAlphabet(k.Letters, feat.DNA, alphabet.Letter(k.Letters[0]), 'n', true)
 		qry = own.NewSeq("q", alphabet.BytesToLetters([]byte(k.Q)), a2)
+	case "other-alphabet-row":
+		// the query is a row of an alignment over ANOTHER alphabet object (the library's own row type: it has
+		// an alphabet, and no slice to give)
+		a2, _ := alphabet.NewAlphabet(k.Letters, feat.DNA, alphabet.Letter(k.Letters[0]), 'n', true)
+		cols := make([][]alphabet.Letter, len(k.Q))
+		for i := range cols {
+			cols[i] = []alphabet.Letter{alphabet.Letter(k.Q[i])}
+		}
+		aln, err := alignment.NewSeq("aln", []string{"row"}, cols, a2, seq.DefaultConsensus)
+		if err != nil {
+			return nil
+		}
+		row, ok := aln.Row(0).(align.AlphabetSlicer)
+		if !ok {
+			return nil
+		}
+		qry = row
 	case "mixed-types":
 		qry = seqOf(k.Letters, k.Q, true)
 	case "mixed-types-2":
@@ -639,7 +675,7 @@ func run(c *enum.Ctx, prop string) {
 	if prop == "C08" {
 		c.Rule("alphabet '-ac' (gap first): every ordered pair of non-empty sequences of length <=3 over {a,c}; every 3x3 matrix with substitution entries in {-1,0,1} and the four gap entries in {0,-1}; gap-open in {0,-1,-2}; the six aligners; a third of the matrices reach the aligner in a matrix value that earlier alignments used with other contents (rewritten in place), a fifth embedded in a matrix two rows/columns larger than the alphabet (extra cells 55), a fifth as a copy-on-write edit of a block-allocated matrix (outer rows views of one block, inner rows replaced), and one goroutine sweeps every 7th matrix through a single matrix value, all aligners applied again after each rewrite (thorough: lengths <=4, substitution entries in {-2..2} on a sliced sub-grid, gap entries {0,-1,-2}, and the alphabet '-acg' with lengths <=2; lengths 5 on every 40th matrix of the small grid); alphabets '-acgtn' (thorough also gap + 20 letters) with two asymmetric all-different matrices and every pair of sequences of length <=2; a fixed word of 260 / 520 letters over '-acgt' against itself with one letter inserted or deleted at every position around 256 / 512 and with blocks of 63..129 letters missing from either side, all aligners, on one goroutine; a word against itself with a block of every length 1..300 missing from either side; matrices with entries of +-2^30 and +-2^40; every pair of words of length <=3 over '-ac' that holds the gap letter itself, on a slice of the matrices with the gap/gap cell 0 and -1; every word pair on a few matrices directly after a REJECTED call (illegal letter at each position of either sequence, ragged matrix sharing the rows of the good one, mixed sequence types, distinct alphabet objects) on the same goroutine; oracle: the score of the RETURNED PATH recomputed from the letters equals the optimum of an independent reference DP (global / local / whole-query-ending-at-the-same-reference-position; affine: three-state with and without gap-to-gap transitions so that the two defect classes are told apart); non-trivial = cases whose optimal alignment contains at least one gap or mismatch")
 	} else {
-		c.Rule("every alignment produced in C08's space: monotone abutting path of equal-length blocks, one-sided gaps and empty zero-score pairs; global spans both sequences, local/fitted within bounds; per maximal run the reported scores equal the score recomputed from letters, matrix and gap parameters (gap-open once per run); plain and quality letters give identical pairs; align.Format gives two equal-length rows that reduce to the aligned sub-sequences, over quality-carrying sequences the same letters; the pairs turned round with Invert after they have been read describe the same path with the sides exchanged (Features and Format), and turned round twice are what they were; plus ill-typed calls (an illegal letter at every position of either sequence, distinct alphabet objects, mixed Letters/QLetters, nil alphabet, alphabet without leading gap, ragged / non-square / undersized / empty matrices, among them every shape of 1..5 rows with each row as long as the row count or one off it) which must return an error and never panic; non-trivial = all")
+		c.Rule("every alignment produced in C08's space: monotone abutting path of equal-length blocks, one-sided gaps and empty zero-score pairs; global spans both sequences, local/fitted within bounds; per maximal run the reported scores equal the score recomputed from letters, matrix and gap parameters (gap-open once per run); plain and quality letters give identical pairs; half the pairs reach the aligner through a caller's own AlphabetSlicer that hands out the reads of a batch one after the other; align.Format gives two equal-length rows that reduce to the aligned sub-sequences, over quality-carrying sequences the same letters; the pairs turned round with Invert after they have been read describe the same path with the sides exchanged (Features and Format), and turned round twice are what they were; plus ill-typed calls (an illegal letter at every position of either sequence, distinct alphabet objects, mixed Letters/QLetters, nil alphabet, alphabet without leading gap, ragged / non-square / undersized / empty matrices, among them every shape of 1..5 rows with each row as long as the row count or one off it) which must return an error and never panic; non-trivial = all")
 	}
 	c.Assume("gap scores and gap-open are non-positive; sequences that hold the gap letter itself only in the family made for them (lengths <=3 over '-ac')")
 	maxLen, sub, gp := 3, []int{-1, 0, 1}, []int{0, -1}
@@ -1062,7 +1098,7 @@ func run(c *enum.Ctx, prop string) {
 				ills = append(ills, Case{Aligner: al, R: "ca", Q: bad, Letters: def, M: good, Open: -1, Ill: fmt.Sprintf("illegal-letter: query position %d", p)})
 			}
 		}
-		for _, kind := range []string{"other-alphabet", "mixed-types", "mixed-types-2", "nil-alphabet", "no-leading-gap"} {
+		for _, kind := range []string{"other-alphabet", "other-alphabet-row", "mixed-types", "mixed-types-2", "nil-alphabet", "no-leading-gap"} {
 			ills = append(ills, Case{Aligner: al, R: "aca", Q: "ca", Letters: def, M: good, Open: -1, Ill: kind})
 		}
 		ills = append(ills,
